@@ -66,17 +66,18 @@ package ply
 //@   props C14
 
 //@ func listBinaryPropertyReader.Count
-//@   props C14
+//@   props C14 C08
 //@   modifies lpr.buf, ghost consumed
 //@   requires len(lpr.buf) >= lpr.property.CountType.Size()
 //@   returns n, err
 //@   ensures count_bytes_existed: err == nil ==> consumed(in) - old(consumed(in)) == lpr.property.CountType.Size()
+//@   ensures [C08] decoded_count: err == nil && lpr.property.CountType != UChar ==> (let p = old(consumed(in)) in n == int32(u32(lpr.endian, stream(in, p), stream(in, p + 1), stream(in, p + 2), stream(in, p + 3))))
+//@   ensures [C08] uchar_count: err == nil && lpr.property.CountType == UChar ==> n == stream(in, old(consumed(in)))
 
 //@ func listBinaryPropertyReader.Read
-//@   props C14
+//@   props C14 C08
 //@   modifies lpr, lpr.buf, ghost consumed
 //@   requires lpr != nil && len(lpr.buf) >= lpr.property.CountType.Size()
-//@   unclaimed safe.slicebounds: a list count of 2^31 or more makes the payload size negative; no prefix of a valid file holds one
 //@   returns err
 //@   ensures payload_bytes_existed: err == nil ==> lpr.lastReadListSize >= 0 && consumed(in) - old(consumed(in)) == old(lpr.property.CountType.Size()) + lpr.lastReadListSize * lpr.property.ListType.Size()
 
